@@ -2961,6 +2961,46 @@ fn main() {
                                 Err(e) => format!("{{\"client\":\"{}\",\"send_before_detach_settled\":false,\"send_after_resume_settled\":false,\"send_on_the_other_link_settled\":false,\"log\":{}}}", e, sp::json_list(&log)),
                             }
                         }
+                        // end_with_error_waits: the client ends its session WITH an error; the peer answers the end only 400 ms
+                        //   later. The call must not return before the peer's end has arrived, and the connection must stay usable
+                        //   (a second session can be begun and ended).
+                        "end_with_error_waits" => {
+                            use fe2o3_amqp_types::performatives::End;
+                            let mut first_end = true;
+                            let peer = tokio::spawn(sp::run(peer_io, sp::PeerCfg::default(), move |f: &Frame, _log: &[String]| {
+                                let mut act = sp::Act::default();
+                                if let (FrameBody::End(_), true) = (&f.body, first_end) {
+                                    first_end = false;
+                                    act.handled = true;
+                                    act.pause_ms = 400;
+                                    act.late_replies.push(Frame::new(f.channel, FrameBody::End(End { error: None })));
+                                }
+                                act
+                            }));
+                            let client = tokio::time::timeout(Duration::from_secs(8), async {
+                                let mut conn = fe2o3_amqp::Connection::builder().container_id("client").open_with_stream(client_io).await.map_err(|_| "open_failed")?;
+                                let mut session = fe2o3_amqp::Session::begin(&mut conn).await.map_err(|_| "begin_failed")?;
+                                let err = defs::Error::new(defs::AmqpError::InternalError, Some("local trouble".to_string()), None);
+                                let t0 = std::time::Instant::now();
+                                let r = tokio::time::timeout(Duration::from_secs(3), session.end_with_error(err)).await;
+                                let ms = t0.elapsed().as_millis() as u64;
+                                let ended = matches!(r, Ok(Ok(_)));
+                                tokio::time::sleep(Duration::from_millis(500)).await;
+                                let second = match tokio::time::timeout(Duration::from_secs(2), fe2o3_amqp::Session::begin(&mut conn)).await {
+                                    Ok(Ok(mut s2)) => matches!(tokio::time::timeout(Duration::from_secs(2), s2.end()).await, Ok(Ok(_))),
+                                    _ => false,
+                                };
+                                let _ = tokio::time::timeout(Duration::from_secs(1), conn.close()).await;
+                                Ok::<_, &'static str>((ended, ms, second))
+                            })
+                            .await
+                            .unwrap_or(Err("hang"));
+                            peer.abort();
+                            match client {
+                                Ok((ended, ms, second)) => format!("{{\"client\":\"ok\",\"end_ok\":{},\"returned_after_ms\":{},\"returned_after_the_peers_end\":{},\"connection_still_usable\":{}}}", ended, ms, ended && ms >= 350 && second, second),
+                                Err(e) => format!("{{\"client\":\"{}\",\"end_ok\":false,\"returned_after_ms\":0,\"returned_after_the_peers_end\":false,\"connection_still_usable\":false}}", e),
+                            }
+                        }
                         // link_split <pieces>: the peer's attach carries max-message-size 16; the client sends ONE message
                         //   whose payload is cut into <pieces> transfers by the link. All frames of the delivery must carry
                         //   the first frame's delivery-id or none, `more` on all but the last, and add up to the payload.
